@@ -98,14 +98,17 @@ class NetQASMProtocol(Protocol):
         else:
             self.buf = data
 
-        try:
-            msg_id, msg = self._parse_message()
-        except IncompleteMessageError:
-            return
+        # One read may carry several messages (or the tail of one and the start
+        # of the next): handle every complete message in the buffer, in order.
+        while True:
+            try:
+                msg_id, msg = self._parse_message()
+            except IncompleteMessageError:
+                return
 
-        d = self.messageHandler.handle_netqasm_message(msg_id=msg_id, msg=msg)
-        d.addCallback(self.log_handled_message)
-        d.addErrback(self.log_error)
+            d = self.messageHandler.handle_netqasm_message(msg_id=msg_id, msg=msg)
+            d.addCallback(self.log_handled_message)
+            d.addErrback(self.log_error)
 
     def log_handled_message(self, result):
         self._logger.info(f"Finished handling message with result = {result}")
@@ -127,7 +130,8 @@ class NetQASMProtocol(Protocol):
             raise IncompleteMessageError
         if len(self.buf) < msg_hdr.length:
             raise IncompleteMessageError
-        msg = deserialize_host_msg(self.buf[MessageHeader.len():])
+        # Only the bytes of this message: what follows belongs to the next one
+        msg = deserialize_host_msg(self.buf[MessageHeader.len():msg_hdr.length])
         self.buf = self.buf[msg_hdr.length:]
 
         return msg_hdr.id, msg
